@@ -287,6 +287,42 @@ theorem run_inv : ∀ (as : List Act) (c c' : Conn), Inv c → run c as = some c
 theorem conn_close_at_most_once (as : List Act) (c : Conn) (hr : run {} as = some c) : c.sent ≤ 1 :=
   (run_inv as {} c inv_init hr).once
 
+/-! ## close() / check_for_errors() with a connection error already recorded -/
+
+theorem gen_check_sets_closed : Gen.Close.checkSetsClosedBeforeClose = true := by decide
+
+/-- the re-entrant close of a connection already marked CLOSED sends nothing and ends -/
+theorem closeE_closed (sc : Bool) (fuel : Nat) (c : CE) (h : c.state = closed) :
+    closeE sc (fuel + 1) c = { c with state := closed, socket := false } := by
+  simp [closeE, h]
+
+/-- **close() with an error recorded sends at most its one Connection.Close and ends CLOSED**, with the recursion
+    two deep (no `RecursionError`), for every state of connection and socket -/
+theorem close_with_error_recorded (fuel : Nat) (c : CE) (ho : c.overflow = false) :
+    closeE Gen.Close.checkSetsClosedBeforeClose (fuel + 2) c =
+      { state := closed, socket := false, overflow := false,
+        sent := c.sent + (if c.state ≠ closed ∧ c.socket then 1 else 0) } := by
+  rw [gen_check_sets_closed]
+  obtain ⟨st, so, se, ov⟩ := c
+  simp only at ho; subst ho
+  by_cases h1 : st = closed
+  · subst h1; simp [closeE]
+  · have hcl : Gen.Const.stateClosing ≠ closed := by decide
+    cases so <;> simp [closeE, h1, hcl]
+
+/-- **an operation that meets the recorded error sends no Connection.Close at all** -/
+theorem op_with_error_recorded (fuel : Nat) (c : CE) (ho : c.overflow = false) :
+    checkE Gen.Close.checkSetsClosedBeforeClose (fuel + 1) c =
+      { state := closed, socket := false, overflow := false, sent := c.sent } := by
+  rw [gen_check_sets_closed]
+  obtain ⟨st, so, se, ov⟩ := c
+  simp only at ho; subst ho
+  simp [checkE, closeE]
+
+/-- without the CLOSED mark the two functions call each other until the recursion limit: one frame per level -/
+theorem without_mark_close_repeats : (closeE false 50 {}).sent = 50 ∧ (closeE false 50 {}).overflow = true := by decide
+example : closeE true 50 {} = { state := closed, socket := false, sent := 1 } := by decide
+
 /-- `_close_channel`: CLOSING first (an application `close()` that comes now backs off, the number is not free
     yet), then the CloseOk, then the local clean-up, the reason, and CLOSED last (regenerated) -/
 theorem close_channel_order : Gen.ChanErr.closeChannelOrder =
